@@ -13,7 +13,7 @@ claimed = {
  "C13": ("graphsim", "Seeded fault injection: 1-2 failing nodes at any depth (error sentinel, panic, error item mid-stream), context cancellation at a drawn scheduler step, step limit; oracle: errors.As/Is recover the sentinel, ErrExceedMaxSteps, context.Canceled; message names the node path; panic value in the error; no escaped panic, no process crash, no hang.", G_NOTE + " Tool and forwarder panics are exercised by C17 and C08."),
  "C17": ("agentsim", "Seeded search over tool sets (invokable-only, streamable-only, both), assistant messages with 1-5 calls (repeats, unknown names), failing/panicking tools, direct and in-graph use, Invoke and Stream, and schedules that decide the tool completion order; oracle: N answers in call order with ids and outputs, concat(Stream)=Invoke, failures and unknown names reported, each call executed once with its call id, no crash.", "Tools are harness tasks that yield before answering; interleavings at hook granularity (tool goroutine spawn, WaitGroup, stream operations)."),
  "C18": ("agentsim", "Seeded search over scripted model behaviours (tool-calling turns, chunkings incl. tool-calls-first and text-first, endless scripts), tool sets, return-directly sets and step limits; Generate and Stream are both run; oracle: the message history each model call sees, the returned message, the step-limit error, Generate = concat(Stream), against a small reference model of the loop.", "The chat model is a scripted stub (the simulated remote party); the default tool-call checker is only combined with chunkings it is documented to support."),
- "C09": ("graphsim", "Seeded search over schedules that interleave 2-4 caller tasks on ONE compiled object (graphs/workflows with state, branches, nested graphs; in 1 of 5 runs the bundled ReAct agent with Generate and Stream callers); oracle: every call equals the reference model for its own input (= its solo result), state objects are per run, lambda options and callback handlers only see their own run, the agent's model history per caller is its own.", G_NOTE + " The data-race clause is decided by 300 (quick) / 6000 (thorough) additional runs of a race-detector build of the same simulator in which the kernel's own synchronisation is hidden from the detector (runtime.RaceDisable), so two accesses the program does not order are reported although the simulator ran them one after the other; a report counts only if both accesses are in eino code, and is minimised and replayed like any other violation. Only executed paths are covered. The host multi-agent flow is not simulated."),
+ "C09": ("graphsim", "Seeded search over schedules that interleave 2-4 caller tasks on ONE compiled object (graphs/workflows with state, branches, nested graphs; in 3 of 10 runs a bundled agent: the ReAct agent or the host multi-agent, with Generate and Stream callers); oracle: every call equals the reference model for its own input (= its solo result), state objects are per run, lambda options and callback handlers only see their own run, the agent's model history per caller is its own.", G_NOTE + " The data-race clause is decided by 300 (quick) / 6000 (thorough) additional runs of a race-detector build of the same simulator in which the kernel's own synchronisation is hidden from the detector (runtime.RaceDisable), so two accesses the program does not order are reported although the simulator ran them one after the other; a report counts only if both accesses are in eino code, and is minimised and replayed like any other violation. Only executed paths are covered. 3 in 10 runs call a bundled agent instead of a generated graph: the ReAct agent (Generate and Stream callers, shared option slice and shared input slice with spare capacity) or the host multi-agent (2-3 specialists of all four kinds, scripted host model, per-caller hand-off callbacks)."),
  "C19": ("graphsim", "Seeded search over streaming runs (Stream/Transform) whose caller reads to the end or closes after 0-3 chunks, with callback handlers that read all/part/none of their copies; the kernel keeps scheduling after the call until nothing can run; oracle for runs inside the property's quantifier (reference model: result, every value has a consumer): no goroutine created by the run is alive, no producer blocked in Send, and (lifecycle events) every stream and stream copy created during the run was closed by its reader or read to its end.", G_NOTE),
  "C03": ("graphsim", "Seeded search over schedules of executor goroutines and run loop (hook points inside the task manager hand-off) on plans with >=3 parallel nodes in batch and eager mode; oracle: model equality on every schedule, push/hand-off/collect conservation per run loop, deadlock detector, no return before executions finished, step budget.", G_NOTE),
  "C08": ("streamsim", "Seeded search over random stream operator trees (pipe/array/copy/merge/convert), producer and consumer tasks and schedules under the deterministic kernel; per-reader sequence algebra checked over the recorded history; deadlock, leftover-goroutine and writer-told monitors.",
